@@ -36,6 +36,16 @@ def run(ctx):
         ctx.seed -= 3000
     else:
         ctx.corr(hx, ["realms", "--n", "400", "--len", "40"], cases_name="realms.v")
+    # store faults (the j-th store write of a call refused), Stream consumers that return an error at visit j followed by
+    # further calls (watchdog), second instances over the same store, slice-typed keys/values with zero-copy codecs and
+    # retaining consumers; model: Faults.v (fault script), theorems C09_faults_refine / C09_failed_commit_restores_previous
+    if thorough:
+        for k in range(3):
+            ctx.seed += 1000
+            ctx.corr(hx, ["faults", "--n", "1500", "--len", "60"], cases_name="faults%d.v" % k)
+        ctx.seed -= 3000
+    else:
+        ctx.corr(hx, ["faults", "--n", "400", "--len", "40"], cases_name="faults.v")
     # concurrent families: ties the model's "each method is one atomic step" to the code (judged in Go, no Coq cases)
     if thorough:
         ctx.corr(hx, ["conc", "--rounds", "12", "--ms", "400"], cases_name="conc.v")
@@ -57,8 +67,18 @@ def run(ctx):
         "goroutines, readers only and readers racing one writer, every result must be the sequential model's answer for "
         "a linearization compatible with real time; under recover and a watchdog)"
         + ("; in this tier also run under the Go race detector" if thorough else "; the thorough tier repeats them under the Go race detector"),
-        "key/value codecs of the caller are total and injective (identity on byte strings in model and harness); a nil "
+        "key/value codecs of the caller are total and injective (identity on byte strings in model and harness: K = string with "
+        "a copying decoder, and slice-typed K, V with zero-copy codecs whose Stream consumers retain what they receive); a nil "
         "serialized value is the empty value (after fix c0299ea)",
+        "STORE FAULTS: a fault is a store write (Set/Delete) that returns an error and writes nothing; modelled per call as "
+        "'the j-th write is refused' following the order of the writes in map_impl.go (Faults.v), tied to the code by hx-c09 "
+        "faults. Proved for all such histories: a Commit whose root write is refused changes nothing, a reopen always shows "
+        "root and contents of the last successful Commit, WasRestored <=> a Commit succeeded. NOT failure-atomic in the code "
+        "(listed findings, mirrored by the model / run as directed cases): Set/Delete whose raw-key or size write is refused "
+        "keep the trie update (refused-write-keeps-trie-update); a Commit that fails after its root write, inside the "
+        "external trie's node writes, leaves a store that is neither the old nor the new committed state "
+        "(commit-fault-after-root-write; the trie's node writes are not modelled). Read faults (store Get errors) are not "
+        "injected",
         "Size/Stream agree with the plain map on histories whose reopens happen without uncommitted changes "
         "(clean_reopens): size and raw keys are written through to the store while trie nodes wait for Commit, so a "
         "reopen that drops uncommitted changes keeps the newer size/raw keys (mirrored by the model, outside the property); "
@@ -112,6 +132,12 @@ def replay(ctx, obj):
         ctx.corr(hx, ["conc", "--replay", path, "--repeat", "10"], cases_name="replay_conc.v")
     elif isinstance(case, dict) and case.get("conc_race"):
         conc_race(ctx, list(case.get("args") or ["conc", "--rounds", "6", "--ms", "400"]))
+    elif isinstance(case, dict) and "faults" in case:
+        hx = ctx.go_build("c09")
+        ctx.proof_side(DIRS, "Properties/C09.v")
+        path = os.path.join(ctx.build, "replay_faults.json")
+        json.dump({"faults": case["faults"]}, open(path, "w"))
+        ctx.corr(hx, ["faults", "--replay", path], cases_name="replay_faults.v")
     elif isinstance(case, dict) and "realms" in case:
         hx = ctx.go_build("c09")
         ctx.proof_side(DIRS, "Properties/C09.v")
